@@ -50,8 +50,14 @@ PROPS = {
               "Per-epoch hypotheses (EpochsOK): those above except 'never seals', the forkless-cause oracle being per epoch, and for every validator set the application may return in an epoch the next epoch's history carries its canonical record. "
               "Not proved: equality of cheater lists (C03/C06), restarts combined with seals (C08 is one epoch). "
               "Correspondence: every instance's accept/reject decisions, blocks, cheaters and epoch transitions are compared with the graph-level reference, which is "
-              "order-free by construction; instances process the same events in different random parents-first orders.",
-              props=["LachesisVerif.Props.C01"], level="proof"),
+              "order-free by construction; instances process the same events in different random parents-first orders. "
+              "Composed with the vector index (Props/Consensus.lean, combined model Model/Indexed.lean = IndexedLachesis: DagIndexer.Add + Orderer.Process with the oracle answered by THIS instance's index at the positions of its own indexing order, Flush / DropNotFlushed as keep-new / keep-old state): "
+              "Consensus.indexed_order_independent_partial - two instances, each over its own index filled in its own parents-first order, accept every event and emit the same (frame, Atropos, cheaters) sequence and last decided frame; "
+              "Consensus.indexed_blocks_cheaters_partial - every block carries the Atropos of the rules and the cheater list computed by the instance's own index at the decision = exactly the validators with a fork among the Atropos' ancestors, canonical order (C03/C06; an emitted Atropos is always an indexed event). "
+              "GONE in these corollaries: hobs (oracle = graph forkless cause: Consensus.observe_eq_FC from C05_fc_eq_spec for the instance's own history + emb_fcspec + FC_eq_FCSpec; Orderer.process only asks about the processed event and owners of table roots: Compose.process_congr), "
+              "hvals/ValsOK (Consensus.valsOK_of_build from C12), hbound/FrameBound (Consensus.frameBound_of_checks from C13), and 'cheater lists not proved'. "
+              "Hypotheses that remain there: the property's own (Valid history, claimed frames obey the frame rule, forkers < 1/3, parents-first orders), the application never seals (one epoch), nVals + number of events < 2^32 (C05: 32-bit branch ids), validators named by canonical index with non-zero 32-bit weights and the record built by Model.Pos.build (WeightsOK/BuiltFor), every event passed eventcheck with its claimed frame and parent list (Checked). C01_multi_epoch_partial is not composed (per-epoch hypotheses unchanged).",
+              props=["LachesisVerif.Props.C01", "LachesisVerif.Props.Consensus"], level="proof"),
     "C02": _p("Proof (partial): the explicit-stack DFS of confirmEvents, started on an ancestor-closed confirmed set, delivers exactly the Atropos' "
               "ancestry minus what was confirmed, each event once, and leaves an ancestor-closed set; decided frames are frameToDecide and onFrameDecided "
               "moves to the next frame / FirstFrame after a seal. Termination is proved too: on a DAG given as a parents-first history (parents have smaller positions) with n events and at most k parents per event the loop finishes within n*(k+1)+1 iterations from any confirmed set (C02_confirm_terminates; total correctness C02_block_total). "
@@ -110,8 +116,11 @@ PROPS = {
               "Not proved: restoration of the real vector/branch tables by DropNotFlushed (the model's roll-back is the index of the prefix). "
               "Correspondence: speculative builds and "
               "rejected wrong-frame events are injected on the builder instance only; the other instances never see them; "
-              "all instances must keep agreeing with the reference (which ignores them by construction).",
-              props=["LachesisVerif.Props.C07"], level="proof"),
+              "all instances must keep agreeing with the reference (which ignores them by construction). "
+              "Combined model (Props/Consensus.lean over Model/Indexed.lean = IndexedLachesis): Consensus.indexed_no_trace - a buildIndexed or a rejected processIndexed (wrong frame / election error) made at any point of any log of Process/Build calls returns literally the "
+              "previous (Orderer state, index state, indexing order), so the final state and every later answer equal those of the log without the call (Consensus.processIndexed_rejected, buildIndexed_state); no hypotheses - true by construction of the model's transaction "
+              "(Flush = keep the new index state, DropNotFlushed = keep the old one). Still not proved: that the real DropNotFlushed restores the tables (correspondence).",
+              props=["LachesisVerif.Props.C07", "LachesisVerif.Props.Consensus"], level="proof"),
     "C08": _p("Proof (partial: one epoch): on Model.Orderer (persisted = epoch, validators, LastDecidedFrame, roots table; volatile = the election; restart = "
               "bootstrap, which re-creates the election at LastDecidedFrame+1 and re-votes the known roots in table order). "
               "Whole continuations, from L5 as a proved invariant of process runs (OInv/OpenEl, C10): C08_restart_invisible_partial - for every valid history with accepted frames and "
@@ -129,8 +138,12 @@ PROPS = {
               "(C08_restart_election_equiv_partial, C08_next_root_equiv_partial, C08_restart_next_process_partial). "
               "Non-vacuity: one-validator examples (all hypotheses of C08_restarts_invisible_partial and of C08_restart_election_equiv_partial hold). "
               "Correspondence: instances are restarted (fresh Store caches, fresh vecfc.Index over the kept DBs) at random event boundaries; later outputs must "
-              "equal the reference, which has no notion of restart.",
-              props=["LachesisVerif.Props.C08"], level="proof"),
+              "equal the reference, which has no notion of restart. "
+              "Composed with the vector index (Props/Consensus.lean, Model/Indexed.lean): Consensus.indexed_restart_invisible_partial - the combined instance that processed pre is restarted by Bootstrap over the PERSISTED index state (nothing re-indexed: same VState, same indexing order); "
+              "the restart succeeds, emits nothing, keeps the persisted Orderer state, and the restarted instance answers every event of post like the one that kept running (all accepted, same blocks incl. cheater lists per event), ending with the same persisted Orderer state and the same index. "
+              "GONE there: hobs before and after the restart (Consensus.observe_eq_FC + Compose.bootstrap_congr), hvals (valsOK_of_build, C12), hbound (frameBound_of_checks, C13). "
+              "Hypotheses that remain there: the property's own (Valid history, claimed frames obey the frame rule, forkers < 1/3, parents-first orders), the application never seals (one epoch), nVals + number of events < 2^32 (C05: 32-bit branch ids), validators named by canonical index with non-zero 32-bit weights and the record built by Model.Pos.build (WeightsOK/BuiltFor), every event passed eventcheck with its claimed frame and parent list (Checked). Still not modelled: the reload of the index tables from BranchesInfo, store caches (C33), restarts across seals.",
+              props=["LachesisVerif.Props.C08", "LachesisVerif.Props.Consensus"], level="proof"),
     "C09": _p("Proof. Implementation level (Model.Orderer, run in lock-step against the Go code; unconditional in the oracles): if EndBlock returns a "
               "set at block (E,f), the state after onFrameDecided is literally Model.Orderer.initial (E+1 as idx.Epoch) set = the state Reset produces "
               "(LastDecidedFrame 0, frame to decide 1, no roots, fresh election), hence process/build/bootstrap continuations coincide "
@@ -165,7 +178,12 @@ PROPS = {
               "So 'model = executable reference' is closed inside Lean for the (frame, Atropos) sequence of one epoch; cheaters: C03_reference_cheaters; delivered events: C02_reference_delivers / C02_reference_eq_model_delivered. "
               "Not proved: several epochs / seals (decideLoop with a seal, next-epoch instance), restarts; a multi-event Run cannot be evaluated by decide (Array.findIdx? does not reduce in the kernel), the non-vacuity witness is a one-event run. "
               "Correspondence (three-way): accepted frames and emitted blocks of the real code equal those of the independent reference implementation on every generated "
-              "event set (forks below one third).", props=["LachesisVerif.Props.C10"], level="proof"),
+              "event set (forks below one third). "
+              "Composed with the vector index (Props/Consensus.lean, Model/Indexed.lean): Consensus.indexed_eq_reference_partial - for a run of the reference ending in s with blocks out, one instance of the combined model (Orderer over its own vector index) processing the events of the net of s in ANY parents-first order "
+              "accepts everything, ends with the reference's last decided frame and emits the reference's (frame, Atropos) list; its cheater lists are C03's sentence (indexed_blocks_cheaters_partial) = what the reference lists (C03_reference_cheaters). "
+              "GONE there: Ctx's obs (observe_eq_FC, C05), ok/ValsOK (valsOK_of_build, C12), hb/FrameBound (frameBound_of_checks, C13); validity and accepted frames come from the run. "
+              "Remaining there: BFT, no seal (one epoch), nVals + events < 2^32, validators named by canonical index with non-zero 32-bit weights and the record built by the builder, every event passed eventcheck with its claimed frame and parent list.",
+              props=["LachesisVerif.Props.C10", "LachesisVerif.Props.Consensus"], level="proof"),
     "C33": _p("Proof: for every history of addRoot/GetFrameRoots/epoch switches and EVERY cache eviction policy, GetFrameRoots f returns exactly "
               "the roots registered for f in the current epoch; a new epoch starts empty (key layout abstracted to records, injectivity is C32). "
               "Correspondence: GetFrameRoots compared with the set of registered roots of the reference for cache sizes 0/1/small/default, across epoch switches.", props=["LachesisVerif.Props.C33"], level="proof"),
